@@ -594,6 +594,13 @@ Ignored == /\ l <= Len(Trace) /\ Ev.ev \in {"PeerClose", "Teardown", "SB", "SE",
            /\ l' = l + 1
            /\ UNCHANGED <<conc, push, mem, units, rq, used, running, stopped, pend, causes, cancelOK, hcanc, cbs, notes, waitRet, rdDone, sendBad, stopOpen>>
 
+\* What was passed to Channel.Send has been written into again afterwards (the channel may have handed those very bytes to
+\* the peer): a reply or a push the peer can no longer read - never acceptable where replies (C01, C02) or pushes (C09) are judged
+BufferReused == /\ l <= Len(Trace) /\ Ev.ev = "BufferReused"
+                /\ Enforce \cap {"C01", "C02", "C09"} = {}
+                /\ l' = l + 1
+                /\ UNCHANGED <<conc, push, mem, units, rq, used, running, stopped, pend, causes, cancelOK, hcanc, cbs, notes, waitRet, rdDone, sendBad, stopOpen>>
+
 \* Crash / Deadlock / Leak are never acceptable in a server scenario, whatever is being judged
 Terminal == /\ l <= Len(Trace) /\ Ev.ev \in {"Crash", "Deadlock", "Leak"}
             /\ Enforce \cap {"C08", "C02", "C01", "C03", "C06", "C07", "C09"} = {}
@@ -603,7 +610,7 @@ Terminal == /\ l <= Len(Trace) /\ Ev.ev \in {"Crash", "Deadlock", "Leak"}
 Next == \/ Reset \/ Start \/ RecvMsg \/ Enqueue \/ Dequeue \/ Dispatch \/ HStart \/ HCancel \/ HExit
         \/ SendOK \/ SendFailed \/ StopB \/ StopE \/ RecvErr \/ ChClose \/ CancelB \/ CancelE \/ BaseEnd
         \/ NotifyB \/ NotifyE \/ CallbackB \/ CtxEnd \/ CallbackE \/ WaitStatus \/ Quiescent
-        \/ SendFailArmed \/ Final \/ BarrierPass \/ Ignored \/ Terminal \/ QuiescentOp \/ SendHealed
+        \/ SendFailArmed \/ Final \/ BarrierPass \/ Ignored \/ Terminal \/ QuiescentOp \/ SendHealed \/ BufferReused
 
 Spec == Init /\ [][Next]_vars
 
